@@ -68,9 +68,9 @@ def toUtf16 (l : List Nat) : Option (List Nat) :=
   | (some cp, adv) =>
     let us := if cp > 0xFFFF then [((cp - 0x10000) >>> 10) + 0xD800, ((cp - 0x10000) &&& 0x3FF) + 0xDC00]
               else [cp]
-    if h : (l.drop adv).headD 0 ≠ 0 then (toUtf16 (l.drop (adv + 1))).map (us ++ ·) else some us
+    if _h : (l.drop adv).headD 0 ≠ 0 then (toUtf16 (l.drop (adv + 1))).map (us ++ ·) else some us
 termination_by l.length
-decreasing_by exact drop_lt_of_headD_ne h
+decreasing_by exact drop_lt_of_headD_ne _h
 
 /-- a code point as WTF-8 bytes, the stores of idna.c:504-529 -/
 def encode (cp : Nat) : List Nat :=
@@ -140,7 +140,7 @@ def toWtf8 (z : Bool) (src : List Nat) (tgt : Option Nat) : Res :=
   let cap := match tgt with
     | none => lengthAsWtf8 z src                                     -- :473-476
     | some n => n                                                    -- :478
-  let (out, tlen, rem, more) := toWtf8Loop z cap src [] cap
+  let (out, tlen, rem, more) := toWtf8Loop z cap src [] 0              -- :494-495 `target_len = 0`
   let reported := if out.length ≠ cap then out.length else cap       -- :541-544
   let more := if z ∧ out.length = cap ∧ rem.headD 0 = 0 then false else more   -- :547-548
   let out := out ++ [0]                                              -- :550
